@@ -12,7 +12,9 @@ R5-R7, R9 shared reader rules of C14 (delimiter never split / searched behind
 R8  parse_header splits on ';' only without quoted strings.
 R10 BodyPart.name / .filename hand out exactly the parsed Content-Disposition
     parameter (effective members of both flavours; the RFC 5987 `filename*`
-    decoding is the one tabled exception).
+    decoding is the one tabled exception); `secure_filename` is the library
+    sanitiser applied to `filename` itself (nothing applied in between; tabled
+    fallbacks '' / None for an unset name) and its result is handed out as is.
 R11 the quoted-string scan behind parse_header's slow path decides "inside a
     quoted string" by the tabled two-term quote parity; an added or dropped
     substring-count term is a violation.
